@@ -190,7 +190,61 @@ def floordiv(I, a, b):
     return simp_int((-za) / (-zb))
 
 
+def rng_of(v):
+    """known concrete interval of an int value, or None"""
+    if isinstance(v, bool):
+        return (int(v), int(v))
+    if isinstance(v, int):
+        return (v, v)
+    if isinstance(v, SInt):
+        if v.rng is not None:
+            return v.rng
+        if v.bv is not None and not v.bv[2]:
+            return (0, (1 << v.bv[1]) - 1)
+    if isinstance(v, SBool):
+        return (0, 1)
+    return None
+
+
+def _with_rng(r, rng):
+    if isinstance(r, SInt) and rng is not None and r.rng is None:
+        r.rng = rng
+    return r
+
+
 def binop(I, op, a, b):
+    r = _binop(I, op, a, b)
+    if isinstance(r, SInt) and r.rng is None:
+        ra, rb = rng_of(a), rng_of(b)
+        t = type(op)
+        if ra is not None and rb is not None:
+            if t is ast.Add:
+                r.rng = (ra[0] + rb[0], ra[1] + rb[1])
+            elif t is ast.Sub:
+                r.rng = (ra[0] - rb[1], ra[1] - rb[0])
+            elif t is ast.Mult:
+                c = [ra[0] * rb[0], ra[0] * rb[1], ra[1] * rb[0], ra[1] * rb[1]]
+                r.rng = (min(c), max(c))
+            elif t is ast.LShift and rb[0] == rb[1] and rb[0] >= 0:
+                r.rng = (ra[0] << rb[0], ra[1] << rb[0])
+            elif t is ast.RShift and rb[0] == rb[1] and rb[0] >= 0:
+                r.rng = (ra[0] >> rb[0], ra[1] >> rb[0])
+            elif t is ast.FloorDiv and rb[0] == rb[1] and rb[0] > 0:
+                r.rng = (ra[0] // rb[0], ra[1] // rb[0])
+        if r.rng is None and isinstance(b, int) and not isinstance(b, bool):
+            if t is ast.Mod and b > 0:
+                r.rng = (0, b - 1)
+            elif t is ast.BitAnd and b >= 0:
+                r.rng = (0, b)
+        if r.rng is None and t is ast.BitAnd and isinstance(a, int) and not isinstance(a, bool) and a >= 0:
+            r.rng = (0, a)
+        if r.rng is None and t in (ast.BitOr, ast.BitXor) and ra is not None and rb is not None and \
+                ra[0] >= 0 and rb[0] >= 0:
+            r.rng = (0, (1 << max(ra[1].bit_length(), rb[1].bit_length())) - 1)
+    return r
+
+
+def _binop(I, op, a, b):
     e = I.e
     if not is_sym(a) and not is_sym(b) and not isinstance(a, Opaque) and not isinstance(b, Opaque):
         # concrete operands: CPython on the real values
@@ -239,11 +293,16 @@ def binop(I, op, a, b):
     if t is ast.FloorDiv:
         return floordiv(I, a, b)
     if t is ast.Mod:
+        if isinstance(b, int) and not isinstance(b, bool) and b > 0:
+            return simp_int(zint(a) % b)
         q = floordiv(I, a, b)
         return simp_int(zint(a) - zint(b) * zint(q))
     if t is ast.LShift:
         p = pow2(I, b)
-        return simp_int(zint(a) * zint(p))
+        r = simp_int(zint(a) * zint(p))
+        if isinstance(r, SInt) and isinstance(b, int):
+            r.lowzeros = b
+        return r
     if t is ast.RShift:
         p = pow2(I, b)
         r = floordiv(I, a, p)
@@ -308,8 +367,8 @@ def width_of(v):
     return None
 
 
-def bvview(I, v, w):
-    """w-bit two's complement view of an int value"""
+def bvview(I, v, w, in_range=False):
+    """w-bit two's complement view of an int value (in_range: 0 <= v < 2^w is already on the path)"""
     if isinstance(v, bool):
         v = int(v)
     if isinstance(v, int):
@@ -324,7 +383,7 @@ def bvview(I, v, w):
     # unbounded int: tie a fresh bit-vector to v mod 2^w (avoids Int2BV inside terms)
     e = I.e
     x = z3.BitVec(e.newname("bvv"), w)
-    if v.rng is not None and 0 <= v.rng[0] and v.rng[1] < (1 << w):
+    if in_range or (v.rng is not None and 0 <= v.rng[0] and v.rng[1] < (1 << w)):
         e.assume(z3.BV2Int(x, False) == v.z)
         v.bv = (x, w, False)  # cache: the same Python object is often reused (e.g. [pad] * n)
     else:
@@ -332,7 +391,24 @@ def bvview(I, v, w):
     return x
 
 
+CUR_ENGINE = None  # set by the runner for the path being executed (one path at a time per process)
+
+
 def from_bv(bv, w):
+    """int value of an unsigned bit-vector.  Byte-sized vectors get an integer alias variable (cached per term) so
+    that arithmetic over message bytes is plain linear integer arithmetic for the solver."""
+    e = CUR_ENGINE
+    if e is not None and w <= 8 and not z3.is_bv_value(bv):
+        key = bv.get_id()
+        hit = e.bv_alias.get(key)
+        if hit is None:
+            x = z3.Int(e.newname("byte"))
+            e.assume(z3.And(x >= 0, x < (1 << w), x == z3.BV2Int(bv, False)))
+            hit = (x, bv)  # keep bv alive so that the id stays unique
+            e.bv_alias[key] = hit
+        return SInt(hit[0], (bv, w, False), rng=(0, (1 << w) - 1))
+    if z3.is_bv_value(bv):
+        return SInt(z3.IntVal(bv.as_long()), (bv, w, False), rng=(bv.as_long(), bv.as_long()))
     return SInt(z3.BV2Int(bv, False), (bv, w, False))
 
 
@@ -350,8 +426,18 @@ def bitop(I, op, a, b):
         w = min(ws)  # the result fits in the width of any non-negative bounded operand
         return from_bv(bvview(I, a, w) & bvview(I, b, w), w)
     if wa is None or wb is None:
-        # x | y, x ^ y with an operand of unknown width: allowed when one side is a concrete non-negative and the
-        # other a non-negative int of unknown width is not supported
+        # x | (y << s) with 0 <= x < 2^s provable on this path: the operands share no bit, so | and ^ are +
+        for x, y in ((a, b), (b, a)):
+            s = y.lowzeros if isinstance(y, SInt) else ((y & -y).bit_length() - 1 if isinstance(y, int) and y > 0 else 0)
+            if isinstance(y, int) and y == 0:
+                return x
+            if s > 0 and isinstance(y, (SInt, int)):
+                xz, yz = zint(x), zint(y)
+                rx, ry = rng_of(x), rng_of(y)
+                if rx is not None and ry is not None and rx[0] >= 0 and rx[1] < (1 << s) and ry[0] >= 0:
+                    return simp_int(xz + yz)
+                if not I.e.feasible(z3.Not(z3.And(xz >= 0, xz < (1 << s), yz >= 0))):
+                    return simp_int(xz + yz)
         raise Undecided("| or ^ with negative/unbounded operand")
     w = max(wa, wb)
     f = {ast.BitOr: operator.or_, ast.BitXor: operator.xor}[type(op)]
@@ -427,7 +513,14 @@ def norm_index(I, i, ln, exc=IndexError):
     ok = z3.And(-ln <= iz, iz < ln)
     if not e.branch(ok, likely=True):
         raise PyRaise(exc("index out of range"), implicit=True)
-    return z3.simplify(z3.If(iz < 0, iz + ln, iz))
+    r = z3.simplify(z3.If(iz < 0, iz + ln, iz))
+    if z3.is_app_of(r, z3.Z3_OP_ITE):
+        # decide the sign once so that equal positions become syntactically equal terms
+        if not e.feasible(iz < 0):
+            return z3.simplify(iz)
+        if not e.feasible(iz >= 0):
+            return z3.simplify(iz + ln)
+    return r
 
 
 def clamp_slice(lo, hi, ln):
@@ -465,6 +558,13 @@ def getslice(I, o, sl):
             raise Undecided("bytes slice step")
         lo2, hi2 = clamp_slice(lo, hi, o.ln)
         ln = z3.simplify(z3.If(hi2 > lo2, hi2 - lo2, 0))
+        if not z3.is_int_value(ln) and lo is not None and hi is not None:
+            # common case x[a:a+k] with the slice provably inside the object: concrete length k
+            lz, hz = zint(lo), zint(hi)
+            d = z3.simplify(hz - lz)
+            if z3.is_int_value(d) and d.as_long() >= 0:
+                if not I.e.feasible(z3.Not(z3.And(lz >= 0, hz <= o.ln))):
+                    return SBytes(o.arr, z3.simplify(o.off + lz), d, o.mutable)
         return SBytes(o.arr, z3.simplify(o.off + lo2), ln, o.mutable)
     if is_sym(lo) or is_sym(hi) or is_sym(step):
         if isinstance(o, (list, tuple)) and step is None:
@@ -754,6 +854,10 @@ def compare(I, op, a, b):
                 return simp_bool(ax >= (1 << (n - 1))) if n >= 1 else True
             if tt is ast.Lt:
                 return simp_bool(ax < (1 << (n - 1))) if n >= 1 else False
+    if t in (ast.Eq, ast.NotEq) and isinstance(a, SInt) and isinstance(b, SInt) and a.bv is not None and \
+            b.bv is not None and not a.bv[2] and not b.bv[2] and a.bv[1] == b.bv[1]:
+        r = simp_bool(a.bv[0] == b.bv[0])  # same-width unsigned views: compare the bit-vectors themselves
+        return r if t is ast.Eq else ((not r) if isinstance(r, bool) else SBool(z3.Not(r.z)))
     if is_real_like(a) or is_real_like(b):
         za, zb = zreal(a), zreal(b)
     else:
